@@ -187,3 +187,9 @@ def check_C12(tier):
     from drivers import present
 
     return present.run(Check("C12", tier), tier)
+
+
+def check_C10(tier):
+    from drivers import syntax
+
+    return syntax.run(Check("C10", tier), tier)
